@@ -905,8 +905,14 @@ def r_guard(E):
     rel, ck = pm.find_function("core/system.py", "System.check_no_object_to_link_is_already_linked_to_another_system")
     res.instances += 1
     raises = [n for n in ast.walk(ck) if isinstance(n, ast.Raise)]
-    tests = [norm(s.test) for s in ast.walk(ck) if isinstance(s, ast.If)]
-    if len(raises) < 2 or not any("!= self.id" in t for t in tests) or not any("> 1" in t for t in tests):
+    raising_ifs = [s for s in ast.walk(ck) if isinstance(s, ast.If) and any(isinstance(x, ast.Raise) for x in s.body)]
+    other_system = any(any(isinstance(c, ast.Compare) and "self.id" in norm(c) and ".id" in norm(c).replace("self.id", "", 1)
+                           for c in ast.walk(s.test)) for s in raising_ifs)
+    two_systems = any(any(isinstance(c, ast.Compare) and "len(" in norm(c) and (
+        (isinstance(c.ops[0], ast.Gt) and norm(c.comparators[0]) == "1") or
+        (isinstance(c.ops[0], ast.GtE) and norm(c.comparators[0]) == "2") or
+        (isinstance(c.ops[0], ast.NotEq) and norm(c.comparators[0]) == "1")) for c in ast.walk(s.test)) for s in raising_ifs)
+    if len(raises) < 2 or not other_system or not two_systems:
         res.findings.append(Finding("R-GUARD", "System.check_no_object… cases",
                                     "the one-system check must raise both for an object linked to another system and "
                                     "for an object linked to two systems", rel, ck.lineno, ck.name))
